@@ -37,6 +37,7 @@ func runC05(c *core.Ctx) {
 	c05ErrorsDelivered(c)
 	c05Continuation(c)
 	c05Cursors(c)
+	listQueryEscaped(c, "C05.R5")
 }
 
 // yieldParam returns the consumer parameter (func(...) bool) of fn, if any.
